@@ -103,6 +103,41 @@ def extreme_cases(thresholds=(None,), shutoff="long_delayed_shutoff"):
     return out
 
 
+def column_extreme_rows(max_ties=3):
+    """rows holding the largest or the smallest value of SOME numeric column of the input table (only when at most max_ties rows share
+    it): data-dependent guards, caps and tolerances bite on such rows first - e.g. LUX is the only row with more than 85 % retail waste"""
+    import numpy as np
+    t = country_table()
+    out = []
+    for c in t.columns:
+        if c in ("iso3", "country") or not np.issubdtype(t[c].dtype, np.number):
+            continue
+        for v in (t[c].max(), t[c].min()):
+            rows = t.loc[t[c] == v, "iso3"].tolist()
+            if len(rows) <= max_ties:
+                out.extend(rows)
+    return list(dict.fromkeys(extreme_rows() + out))
+
+
+WIDE_BUNDLES = [
+    dict(scenario="all_resilient_foods", shutoff="long_delayed_shutoff", crop_disruption="country_nuclear_winter",
+         grasses="country_nuclear_winter", fish="nuclear_winter", waste="baseline_in_country"),
+    dict(waste="doubled_prices_in_country", ratio_stocks_untouched="zero", shutoff="continued", NMONTHS=72),
+    dict(scenario="seaweed", crop_disruption="country_nuclear_winter", grasses="country_nuclear_winter", fish="nuclear_winter",
+         waste="tripled_prices_in_country", ratio_stocks_untouched="no_stored_between_years", shutoff="short_delayed_shutoff", NMONTHS=84),
+]
+
+
+def extreme_cases_wide(bundles=(0, 1, 2), rotate=False):
+    """(iso3, options) for every column-extreme row: under each of the named WIDE_BUNDLES (the three country waste levels, three stock
+    regimes, with and without resilient foods), or - rotate=True - under one of them chosen by the row's position"""
+    out = []
+    for k, iso in enumerate(column_extreme_rows()):
+        for b in ([bundles[k % len(bundles)]] if rotate else bundles):
+            out.append((iso, dict(BASELINE_COUNTRY, **WIDE_BUNDLES[b])))
+    return out
+
+
 def run_fixed(ctx, cases, fn):
     """run fn(iso3, options, k) for this shard's share of a fixed case list, collecting violations"""
     from vlib.harness import Violation
